@@ -420,6 +420,16 @@ class C13(Check):
                                 if code != 0 or exc is not None or lines != exp:
                                     acc.violation('cli-traces-differ-from-library', {'kind': 'cli', 'args': args},
                                                   {'exit': code, 'error': repr(exc)[:200], 'got': lines[:3], 'expected': exp[:3]})
+                                # what the command line lists is decided by the options TYPED: variables of the environment that spell option
+                                # names (as an automatic environment prefix of the option parser would read them) change nothing
+                                if not show_tid and len(sc) <= 1:
+                                    env = {f'{pre}{k}': v for pre in ('PYKDEBUGPARSER_', 'PYKDEBUGPARSER_TRACES_', 'PYKDEBUGPARSER_CLI_TRACES_') for k, v in
+                                           (('TID', '2'), ('PROCESS', 'zz'), ('COUNT', '1'), ('CLASS_FILTERS', '1'), ('SUBCLASS_FILTERS', '0x140'), ('COLOR', '1'), ('SHOW_TID', '1'))}
+                                    code, lines, exc = run_cli(blob, args, env=env)
+                                    acc.case(nontrivial=True, transitions=2, state=h64(('cli-env', tid, proc, cl, sc)))
+                                    if code != 0 or exc is not None or lines != exp:
+                                        acc.violation('cli-traces-depend-on-environment-variables', {'kind': 'cli', 'args': args},
+                                                      {'exit': code, 'error': repr(exc)[:200], 'got': lines[:3], 'expected': exp[:3]})
                                 # the count limit counts the lines that are printed (the filtered ones), whatever else is read to decode them
                                 if not show_tid and (tid is not None or proc is not None or cl or sc) and len(sc) <= 1:
                                     for n in (1, 2):
